@@ -55,7 +55,8 @@ void h_run(Case &c) {
   bool numa_rich = d.chance(1, 8);
   if (numa_rich) { unsigned k1 = d.range(2, 6), k2 = d.range(1, 3), k3 = d.range(1, 2); int a = d.range(0, 1), b = d.range(0, 2), cc = d.range(0, 1); if (!b && !cc) b = 1; std::string sdesc; for (int i = 0; i < a; i++) sdesc += "[numa] ";
     sdesc += strf("%s:%u ", d.chance(1, 2) ? "pack" : "group", k1); if (k2 > 1 || cc) { for (int i = 0; i < b; i++) sdesc += "[numa] "; sdesc += strf("%s:%u ", d.chance(1, 2) ? "die" : "l3", k2); for (int i = 0; i < cc; i++) sdesc += "[numa] "; } else for (int i = 0; i < b; i++) sdesc += "[numa] ";
-    sdesc += strf("pu:%u", k3); sp.is_xml = false; sp.xmlpath.clear(); sp.synth = sdesc; c.cls("source:numa-rich"); }
+    sdesc += strf("pu:%u", k3); if (d.chance(1, 3)) { size_t pos; while ((pos = sdesc.find("[numa]")) != std::string::npos) sdesc.replace(pos, 6, "[numa(memorysidecachesize=64MB)]"); sp.filters[HWLOC_OBJ_MEMCACHE] = HWLOC_TYPE_FILTER_KEEP_ALL; sp.filters[HWLOC_OBJ_MISC] = HWLOC_TYPE_FILTER_KEEP_ALL; c.cls("source:numa-rich+memcache"); }
+    sp.is_xml = false; sp.xmlpath.clear(); sp.xmlbuf.clear(); sp.synth = sdesc; c.cls("source:numa-rich"); }
   c.desc(sp.text());
   hwloc_topology_t t; hwloc_topology_init(&t);
   if (apply_spec_and_load(c, t, sp) < 0) { hwloc_topology_destroy(t); c.discard(); }
